@@ -106,14 +106,36 @@ Proof.
     rewrite (IH s1 s' H F2). eapply junk_step; eauto.
 Qed.
 
+(* without SkipReferrersGC and without a failed deletion: when nobody is updating, every
+   index manifest of the tag in the registry is the current one, or was ALREADY dangling
+   at the start (it is not the initial index: that one has been deleted) *)
 Lemma gc_clean r0 st0 tr s :
   run false (init r0 st0) tr = Some s ->
   forallb (fun e => negb (del_failed e)) tr = true ->
   (forall t, is_main (pcs s t) = false) ->
-  forall x, In x (store s) -> reg s = Some x \/ In x st0.
+  forall x, In x (store s) -> reg s = Some x \/ (In x st0 /\ r0 <> Some x).
 Proof.
   intros H F Hn x Hx. destruct (gc_store _ _ _ _ _ H Hn x Hx) as [E|E]; auto.
-  right. rewrite (junk_run _ _ _ H F) in E. exact E.
+  right. rewrite (junk_run _ _ _ H F) in E. simpl in E. apply filter_In in E as [E1 E2].
+  split; auto. intro Er. subst r0. simpl in E2. rewrite index_eqb_refl in E2. discriminate.
+Qed.
+
+(* junk grows by exactly one entry per failed index deletion *)
+Lemma junk_count_step s e s' :
+  step false s e = Some s' ->
+  length (junk s') = (length (junk s) + (if del_failed e then 1 else 0))%nat.
+Proof.
+  intros H. destruct e; simpl in H; step_inv H; simpl; auto; try lia; try discriminate.
+Qed.
+
+Lemma junk_count tr : forall s s',
+  run false s tr = Some s' ->
+  length (junk s') = (length (junk s) + length (filter del_failed tr))%nat.
+Proof.
+  induction tr as [|e tr IH]; intros s s' H; simpl in *.
+  - injection H as <-. lia.
+  - destruct (step false s e) as [s1|] eqn:E; [|discriminate].
+    rewrite (IH s1 s' H), (junk_count_step _ _ _ E). destruct (del_failed e); simpl; lia.
 Qed.
 
 (* ---------- SetReferrersCapability ---------- *)
